@@ -194,14 +194,24 @@ func RunDriver(o DriverOpts) int {
 	excepted := Counters{}
 	triages := 0
 	var wg sync.WaitGroup
-	for i := 0; i < n; i++ {
+	// units that reproduce listed known findings get a process each, beside the regular shards
+	canon := 0
+	if ce, ok := e.(interface{ CanonicalUnits() int }); ok {
+		canon = ce.CanonicalUnits()
+	}
+	for i := 0; i < n+canon; i++ {
 		wg.Add(1)
 		go func(shard int) {
 			defer wg.Done()
-			from := 0
+			from := canon
+			sel := []string{"--shard", fmt.Sprint(shard), "--of", fmt.Sprint(n)}
+			if shard >= n { // a canonical unit on its own
+				from = shard - n
+				sel = []string{"--shard", "0", "--of", "1", "--to", fmt.Sprint(from + 1)}
+			}
 			for attempt := 0; attempt < 40; attempt++ {
 				wr := &workerRun{shard: shard, lastUnit: from}
-				spawnWorker(self, o, append(append([]string{}, base...), "--shard", fmt.Sprint(shard), "--of", fmt.Sprint(n), "--from", fmt.Sprint(from)), wr)
+				spawnWorker(self, o, append(append(append([]string{}, base...), sel...), "--from", fmt.Sprint(from)), wr)
 				mu.Lock()
 				runs = append(runs, wr)
 				mu.Unlock()
@@ -238,7 +248,7 @@ func RunDriver(o DriverOpts) int {
 					mu.Unlock()
 				}
 				fmt.Printf("goatsim: worker %d stopped at unit %d (%s: %s); the shard continues at unit %d\n", shard, res.msg.Unit, res.kind, res.why, res.next)
-				if res.kind == "infra" || res.next <= from {
+				if res.kind == "infra" || res.next <= from || shard >= n {
 					return
 				}
 				from = res.next
@@ -482,7 +492,7 @@ func triageHang(self string, o DriverOpts, hang *Msg) triageResult {
 		why = "tokenize/parse/load/compile of a source <= 16 KiB ran out of memory (6 GiB) before any script code ran"
 	case <-time.After(hangLimit * 2):
 		cmd.Process.Kill()
-		why = "tokenize/parse/load/compile of a source <= 16 KiB did not finish within 40 s: " + firstLines(outb.String(), 3)
+		why = "tokenize/parse/load/compile of a source <= 16 KiB did not finish within 20 s: " + firstLines(outb.String(), 3)
 	}
 	if o.Prop != "C03" {
 		return triageResult{kind: "infra", why: "a non-run stage did not complete (property C03's subject): " + hang.Replay}
